@@ -2397,7 +2397,9 @@ EbErrorType read_tile_group_obu(Bitstrm *bs, EbDecHandle *dec_handle_ptr, TilesI
             parse_tile_data[tile_num].data_end  = bs->buf_max;
             parse_tile_data[tile_num].tile_size = tile_size;
 
-            start_parse_tile(dec_handle_ptr, parse_ctxt, tiles_info, tile_num, is_mt);
+            status = start_parse_tile(dec_handle_ptr, parse_ctxt, tiles_info, tile_num, is_mt);
+            if (status != EB_ErrorNone) /* tile data outside the OBU: do not filter a frame that was not parsed */
+                return status;
             if (tile_num != tg_end) /* nothing follows the last tile: do not prefetch past the OBU */
                 dec_bits_init(bs, (get_bitsteam_buf(bs) + tile_size), obu_header->payload_size);
         }
